@@ -192,6 +192,11 @@ func (t *literalParser) listItem(list []interface{}, i, nestedNameLevel int) ([]
 
 	case lastRune == '.':
 		// we have a nested object. Send to t.key
+		// The '.' was read here, so key() does not count this level.
+		nestedNameLevel++
+		if nestedNameLevel > MaxNestedNameLevel {
+			return list, fmt.Errorf("value name nested level is greater than maximum supported nested level of %d", MaxNestedNameLevel)
+		}
 		inner := map[string]interface{}{}
 		if len(list) > i {
 			var ok bool
@@ -212,6 +217,10 @@ func (t *literalParser) listItem(list []interface{}, i, nestedNameLevel int) ([]
 
 	case lastRune == '[':
 		// now we have a nested list. Read the index and handle.
+		nestedNameLevel++
+		if nestedNameLevel > MaxNestedNameLevel {
+			return list, fmt.Errorf("value name nested level is greater than maximum supported nested level of %d", MaxNestedNameLevel)
+		}
 		nextI, err := t.keyIndex()
 		if err != nil {
 			return list, errors.Wrap(err, "error parsing index")
